@@ -27,6 +27,9 @@ CHECKS = {
     "C07": (TV, "shadow", A_TECH, A_NOTE, "conjugate of base circuits, products, integrals (real parameters; complex semiring) compiled and executed symbolically; z3 decides compiled == conj(denotation of the operand); conjugate(conjugate(c)) and integrals of conjugates are cases of the same query."),
     "C08": (MC, "symx", B_TECH, B_NOTE, "The real predicates (is_smooth, is_decomposable, is_structured_decomposable, are_compatible) run on circuits whose leaf variable ids are symbolic; every path is explored and z3 decides per path: answer == set-theoretic definition (iff for smooth/decomposable, => for structured/compatible), invariance under product-input permutation, variable renumbering and argument swap."),
     "C09": (MC, "symx", B_TECH, B_NOTE, "The real operators run with symbolic leaf ids, symbolic integration/observation sets and symbolic order; per path z3 decides: returned => preconditions hold, StructuralPropertyError => structure invalid, ValueError => argument invalid; on return: result smooth/decomposable, documented scope and number of outputs, SD preserved and compatible with operands (multiply), flags preserved (conjugate); query constructors likewise."),
+    "C11": (TV, "shadow", A_TECH + "; symbolic integration masks with path exploration", A_NOTE, "IntegrateQuery.__call__ is executed symbolically with the integration mask entries as solver variables (paths over the mask explored within a stated budget) and with every accepted mask format (Scope, list of Scopes, bool/int tensor); z3 decides, per batch row, equality with the reference marginal (sum / Gaussian integral over exactly the masked variables); empty scopes, full scopes and per-row different masks included."),
+    "C12": (TV, "shadow", A_TECH, A_NOTE, "Template circuits built with normalised parameterisations (image_data, tabular_data, hmm, fully_factorized, region graphs with softmax weights and mixing) are integrated over the whole scope, compiled and executed symbolically; z3 decides Z(theta) == 1 for all parameter values (softmax abstracted to the open simplex), non-negativity of the denotation and definedness of every log."),
+    "C14": (TV, "shadow", A_TECH, A_NOTE, "Parameter computational graphs (every symbolic parameter node type, 142 graph builders) are compiled unfolded and folded and executed symbolically with all tensor entries as solver variables; z3 decides per entry equality with refsem.eval_parameter, and the optimizer's parameter rewrites are checked on circuits whose weights are such graphs (optimize on/off)."),
 }
 
 LEVEL_DOC = {
